@@ -631,6 +631,18 @@ def digit_loops(f):
     return out
 
 
+def depends_on_f(f, v, target, depth=0):
+    """does value v depend (through arithmetic, selects, phis, casts - not through memory) on instruction `target`?"""
+    if v.k != 'inst' or depth > 12:
+        return False
+    if v.id == target.id:
+        return True
+    i = f.insts[v.id]
+    if i.op in ('load', 'call', 'invoke', 'alloca'):
+        return False
+    return any(depends_on_f(f, o, target, depth + 1) for o in i.ops)
+
+
 def stores_to(f, cell):
     return [i for i in f.all_insts() if i.op == 'store' and i.ops[1].k == 'inst' and i.ops[1].id == cell.id]
 
@@ -795,6 +807,20 @@ def round_rule(rep, mod):
     rep.inst('R-ROUND', FN, 'the carry clears the fraction', ok, zeroed[0].where() if zeroed else w,
              None if ok else 'after the rounding the fraction is never replaced by zero: a carry would print base^digits as '
              'fraction digits')
+    # order: the test that decides the carry into the integer part reads the ROUNDED fraction, i.e. no store that resets the
+    # fraction to zero lies in front of it (fp = carry ? 0 : fp; ip = fp == base^n ? ip + 1 : ip never carries)
+    if carries and zeroed and incs:
+        late = []
+        for (c, _e) in carries:
+            for o in c.ops:
+                if cell_of_load(f, o) is not None and cell_of_load(f, o).id == X.id:
+                    li = f.inst_of(fstrip(f, o))
+                    if any(f.dominates(z, li) for z in zeroed):
+                        late.append(c)
+        rep.inst('R-ROUND', FN, 'the carry into the integer part is decided before the fraction is reset', not late,
+                 late[0].where() if late else w,
+                 None if not late else 'the comparison that decides ip + 1 reads the fraction after it has been replaced by zero on '
+                 'a carry: the carry never reaches the integer part (%.2f of 1.996 prints 1.00)')
     whole = []
     for c in f.calls(pred=lambda n: n in c13_fi.ROUND_CALLS):
         a = f.inst_of(fstrip(f, c.ops[0]))
